@@ -12,7 +12,7 @@ KNOWN = os.environ.get("VERIF_KNOWN") or os.path.join(VERIF, "known_findings.jso
 REAL_STUB = {
     "real": ["xcp binary built from /repo working tree (src/, libxcp, libfs and all dependencies, glibc)",
              "Linux VFS + tmpfs for every file operation that is not emulated"],
-    "simulated": ["thread scheduling (token passing at system-call boundaries)", "futex wait/wake queues", "sched_yield / sleeps",
+    "simulated": ["thread scheduling (token passing at system-call boundaries, plus seeded parking in user space after atomic instructions by single-stepping)", "futex wait/wake queues", "sched_yield / sleeps",
                   "getrandom", "directory listing order", "per-call I/O length limit", "injected errno results", "process kill",
                   "FIEMAP answers (from the file's real SEEK_DATA/SEEK_HOLE map)", "FICLONE success"],
     "absent": ["other processes", "block devices", "reflink-capable file systems", "power loss"],
